@@ -74,6 +74,9 @@ def jobs(tier):
                     continue
             for cls, variant in (ALLV if (tier == 'thorough' or idx % 3 == 0) else ALLV[idx % 4:idx % 4 + 1]):
                 J.append(dict(harness=H, params=dict(N=N, prog=prog, config=config, cls=cls, variant=variant), timeout_s=900, cost=30))
+    for N, prog in named[:4]:
+        for config in ('plain', 'layers', 'circuit'):
+            J.append(dict(harness=H, params=dict(N=N, prog=prog, config=config, np_qubits=True), timeout_s=300, cost=5))
     for N, prog in named:
         heavy = N == 3 and any(k == 'fmap' and len(q) == 2 for k, q in prog)
         for config in ('plain', 'layers', 'circuit'):
